@@ -5,8 +5,8 @@ import os
 from harness import core
 from harness.core import cN, clist, ctuple, cbool
 
-HEADER = ('From Coq Require Import List NArith Bool.\n'
-          'From PC Require Import Model.Purity Check.C17.\n'
+HEADER = ('From Coq Require Import List ZArith NArith Bool.\n'
+          'From PC Require Import Base.Outcome Model.IndexedList Model.PurityQueries Model.Purity Check.C17.\n'
           'Import ListNotations.\n')
 CASE_TYPE = 'C17.case'
 
@@ -255,11 +255,52 @@ SKIN_XML = '''<?xml version="1.0" encoding="utf-8"?>
 
 # ------------------------------------------------------------------ encoding
 
+class Atoms(object):
+    def __init__(self):
+        self.t = {}
+
+    def __call__(self, x):
+        if x not in self.t:
+            self.t[x] = 1000 + len(self.t)
+        return self.t[x]
+
+
+def c_rows(rows):
+    return clist([clist([cN(int(v)) for v in r]) for r in rows])
+
+
+def c_tris(t):
+    if t is None:
+        return 'None'
+    return '(Some %s)' % clist([ctuple(*[clist([cN(int(v)) for v in corner]) for corner in tri]) for tri in t])
+
+
+def c_conc(c):
+    if not c:
+        return 'CNone'
+    I = Atoms()
+    if c['kind'] == 'tri':
+        return '(CTri %s %s %s %s)' % (clist([core.cnat(v) for v in c['vcounts']]), c_rows(c['rows']), c_tris(c['r1']), c_tris(c['r2']))
+
+    def inp(t):
+        return ctuple(cN(int(t[0])), cN(I(t[1])), cN(I(t[2])), 'None' if t[3] is None else '(Some %s)' % cN(I(str(t[3]))))
+    if c['kind'] == 'inputs':
+        return '(CInputs %s %s)' % (clist([ctuple(cN(I(sem)), clist([inp(t) for t in tupes])) for sem, tupes in c['sources']]),
+                                   clist([inp(t) for t in c['seen']]))
+    lk = {'get': 'LGet %s', 'in': 'LIn %s', 'item': 'LItem (KId %s)'}
+    seen = []
+    for kind, key, status, val in c['seen']:
+        obs = 'None' if status != 'ok' else '(Some %s)' % ('None' if val is None else '(Some %s)' % cN(val))
+        seen.append(ctuple('(' + lk[kind] % cN(I(key)) + ')', obs))
+    return '(CLookups %s %s %s)' % (clist([ctuple(cN(u), cN(I(i))) for u, i in c['items']]),
+                                   clist([ctuple(cN(I(q)), cN(u)) for q, u in c['index']]), clist(seen))
+
+
 def c_step(s):
     return ctuple(cN(KIND_ATOM[s['op']]),
                   clist([cN(CLASS_ATOM[c]) for c in s['changed']]),
                   clist([cN(CLASS_ATOM[c]) for c in s['changed2']]),
-                  cbool(s['repeat_equal']), cbool(s['same_as_twin']))
+                  cbool(s['repeat_equal']), cbool(s['same_as_twin']), c_conc(s.get('conc')))
 
 
 def c_case(res):
@@ -356,7 +397,7 @@ def run(ctx):
                            'explained_by_known': False})
     # evidence
     seen = set()
-    opcount, chcount, dockinds = {}, {}, {}
+    opcount, chcount, dockinds, conc_count = {}, {}, {}, {}
     nsteps = nsaves = nraised = 0
     for c, r in built:
         kinds = {s['op'] for s in r['steps']}
@@ -369,6 +410,8 @@ def run(ctx):
             opcount[s['op']] = opcount.get(s['op'], 0) + 1
             nsaves += s['op'] == 'save'
             nraised += bool(s.get('raised'))
+            if s.get('conc'):
+                conc_count[s['conc']['kind']] = conc_count.get(s['conc']['kind'], 0) + 1
             for cl in set(s['changed']) | set(s['changed2']):
                 chcount[cl] = chcount.get(cl, 0) + 1
     unbuilt = [r['why'] for r in results if not r['built']]
@@ -382,7 +425,8 @@ def run(ctx):
         'samples': [{'doc': (c['doc'] if c['doc']['kind'] != 'xml' else {'kind': 'xml'}), 'ops': c['ops'][:6],
                      'measured': r['steps'][:6]} for c, r in built[nfixed:nfixed + 2]],
         'distribution': {'steps': nsteps, 'steps_by_kind': opcount, 'saves': nsaves, 'queries_that_raised': nraised,
-                         'changed_location_classes_seen': chcount, 'documents_by_kind': dockinds,
+                         'changed_location_classes_seen': chcount,
+                         'concrete_model_comparisons': conc_count, 'documents_by_kind': dockinds,
                          'documents_that_could_not_be_built': len(unbuilt), 'fixed_cases': nfixed},
         'mismatches': mismatches,
         'errors': errors,
